@@ -385,6 +385,9 @@ func genPomDocs(thorough bool) []*pomDoc {
 					for _, sh := range bools {
 						for pf := 0; pf <= 3; pf++ {
 							for _, pl := range bools {
+								if !thorough && pk >= 3 && (pim || sh) {
+									continue // quick: the placement/sharing variants only for the ${p} and 1.${p} forms
+								}
 								add("child", pomOpt{Deps: d, Mgmt: m, PropKind: pk, PropInMgmt: pim, Shared: sh, Profile: pf, Plugin: pl}, subA, rotA)
 							}
 						}
